@@ -68,3 +68,27 @@ def continuation(x: int) -> int:
     )
     return y + z + \
         int(0)
+
+
+def several_in_one_statement(nums: list[int], names: list[str], cache: dict[str, int], f: str) -> None:
+    # statement forms that take a comma-separated list, with an idiom in each position
+    del nums[:], names[:]
+    del (nums[:], names[:],)
+    del nums[0], names[:]
+    del (
+        nums[:],
+        cache["k"],
+        names[:],
+    )
+    a, b = int(0), str("")
+    c = d = int(0)
+    (e, (g, h)) = (bool(True), (list(nums), dict(cache)))
+    with open(f) as fa, open(f) as fb:
+        x = fa.read()
+        y = fb.read()
+    p = int(0); q = str(""); del nums[:]
+    assert int(0) == 0, str("")
+    print(int(0), str(""), sep=str(""))
+    for i, j in zip(list(nums), list(names)):
+        pass
+    lam = lambda k=int(0), m=str(""): (k, m)
